@@ -179,6 +179,48 @@ func checkC33(p *Prog, r *Report) {
 		}
 	}
 	// (3)
+	// whether a label is experimental is a function of the label (and the configured directories): only labels of the
+	// top-level repository are, and that is read off the label's own Subrepo, not off whichever state asks
+	if isExp != nil && len(isExp.Params) > 0 {
+		nT, badT := 0, 0
+		for _, rc := range returnCases(isExp, 0) {
+			if b, isC := constBool(rc.Vals[0]); isC && !b {
+				continue
+			}
+			nT++
+			own := false
+			for _, f := range rc.Facts {
+				bo, ok := f.V.(*ssa.BinOp)
+				if !ok {
+					continue
+				}
+				isEmpty := func(v ssa.Value) bool { s, ok := constString(v); return ok && s == "" }
+				var other ssa.Value
+				if isEmpty(bo.Y) {
+					other = bo.X
+				} else if isEmpty(bo.X) {
+					other = bo.Y
+				} else {
+					continue
+				}
+				if !((bo.Op == token.NEQ && !f.Val) || (bo.Op == token.EQL && f.Val)) {
+					continue
+				}
+				// the compared value is field Subrepo of the receiver
+				for x := range backSlice(other, SliceOpts{}) {
+					if fieldKey(x) == "core.BuildLabel.Subrepo" || fieldKeyOfLoad(x) == "core.BuildLabel.Subrepo" {
+						if resolveParam(receiverOf(x)) == isExp.Params[0] || receiverOf(x) == ssa.Value(isExp.Params[0]) {
+							own = true
+						}
+					}
+				}
+			}
+			if !own {
+				badT++
+			}
+		}
+		r.check(nT > 0 && badT == 0, "E5.experimental-is-a-property-of-the-label", "isExperimental is true only for a label without a subrepo", p.pos(isExp.Pos()), fnName(isExp), itoa(nT)+" true-returning path(s), each under label.Subrepo == \"\"", "isExperimental decides from something other than the label's own Subrepo (e.g. the current state's subrepo): a PUBLIC target in a subrepo whose package path starts with the experimental directory's name is classed experimental when looked at from the host repository, and depending on it is refused")
+	}
 	rule = "E5.visibility-grant-table"
 	{
 		visField := p.Field("core", "BuildTarget", "Visibility")
@@ -414,6 +456,33 @@ func checkC36(p *Prog, r *Report) {
 		}
 	}
 	// (3)
+	// what `:all` activates goes through the same filter whatever the mode (coverage widens tests-only, not the filter)
+	if at := p.Fn("core", "BuildState.ActivateTarget"); at == nil {
+		r.unresolved("E5.activation-filtered", "core.BuildState.ActivateTarget")
+	} else {
+		n, bad := 0, 0
+		var site token.Pos
+		qt := p.Fn("core", "BuildState.QueueTarget")
+		for _, ci := range callsInFn(at, qt) {
+			cc := callCommon(ci)
+			if len(cc.Args) < 2 || !tagsOf(cc.Args[1], SliceOpts{})["call:(*core.Package).AllTargets"] {
+				continue
+			}
+			n++
+			if !blockJustified(ci.Block(), func(f Fact) bool {
+				c, ok := f.V.(*ssa.Call)
+				return ok && f.Val && callsFn(c, ssi)
+			}, 6) {
+				bad++
+				site = ci.Pos()
+			}
+		}
+		if n == 0 {
+			r.unresolved("E5.activation-filtered", "QueueTarget for the members of :all in ActivateTarget")
+		} else {
+			r.check(bad == 0, "E5.activation-filtered", "members of :all are queued only when ShouldInclude accepts them", p.pos(site), fnName(at), itoa(n)+" queueing site(s), each under state.ShouldInclude(target)", "ActivateTarget queues a member of `:all` on a path where state.ShouldInclude was false or not asked (e.g. for coverage runs): --include / --exclude and the implicit `manual` exclusion are ignored and every target of the package is built")
+		}
+	}
 	rule = "E5.no-exclude-dropped"
 	{
 		var exP *ssa.Parameter
@@ -552,4 +621,19 @@ func checkC36(p *Prog, r *Report) {
 		r.check(okAny, rule, "HasLabel tries every label of the target", p.pos(hasLabel.Pos()), fnName(hasLabel), "loop over target.Labels calls match every iteration", "HasLabel does not compare the pattern with every label of the target")
 	}
 	importRules(p, r, checkC20, "labels/", "E1.prefixbound", "E5.pattern-true-needs-package-test")
+}
+
+// receiverOf: the struct value (or its address) a field access instruction reads from.
+func receiverOf(v ssa.Value) ssa.Value {
+	switch x := v.(type) {
+	case *ssa.Field:
+		return x.X
+	case *ssa.FieldAddr:
+		return x.X
+	case *ssa.UnOp:
+		if fa, ok := x.X.(*ssa.FieldAddr); ok {
+			return fa.X
+		}
+	}
+	return nil
 }
